@@ -456,7 +456,7 @@ class TT():
             # second term is TT object
             if self.__is_ttm and other.is_ttm:
                 # both are TT-matrices
-                if self.__M != self.M or self.__N != self.N:
+                if self.__M != other.M or self.__N != other.N:
                     raise ShapeMismatch("Shapes are incompatible: first operand is %s x %s, second operand is %s x %s." % (
                         str(self.M), str(self.N), str(other.M), str(other.N)))
 
@@ -586,7 +586,7 @@ class TT():
             # second term is TT object
             if self.__is_ttm and other.is_ttm:
                 # both are TT-matrices
-                if self.__M != self.M or self.__N != self.N:
+                if self.__M != other.M or self.__N != other.N:
                     raise ShapeMismatch("Shapes are incompatible: first operand is %s x %s, second operand is %s x %s." % (
                         str(self.M), str(self.N), str(other.M), str(other.N)))
 
